@@ -181,13 +181,20 @@ def run(index, tier="quick", seed=0) -> Result:
         r_ = it_.run_entry(fn, index.cls(cname))
         lens = [e for e in r_["events"] if e.type == "cmp" and e.form == "compare" and e.func is fn and e.left is not None
                 and e.left.extra and isinstance(e.left.extra, tuple) and e.left.extra[0] == "len" and e.right is not None
-                and e.right.is_number_const() and e.op in ("Gt", "GtE")]
+                and e.right.is_number_const() and e.op in ("Gt", "GtE", "Lt", "LtE")]
         raised = sorted({x[0] for x in r_["raises"]})
         if lens:
             nex += 1
             e = lens[0]
             kconst = e.right.const
-            thr = kconst if e.op == "Gt" else kconst - 1
+            # the smallest count for which a non-zero residual raises, found by folding the guard of the raise (so that
+            # `n > 3 and not close`, `not (n <= 3 or close)`, a guard bound to a local first ... are all read the same way)
+            thr = _guard_threshold(fn.node, e.node)
+            if thr is None:
+                if e.op in ("Gt", "GtE"):
+                    thr = kconst if e.op == "Gt" else kconst - 1
+                else:
+                    raise AnalysisError(f"EX-1: the vertex-count guard of {k} is not recognised")
             # the counted array: the vertex array itself, or an array with a known row offset from it (vertices[1:] ...)
             counted = e.left.extra[1]
             offs = [t[2] for t in (counted.tags if counted is not None else ()) if isinstance(t, tuple) and t[0] == "rows-of" and t[1] == "_vertices"]
@@ -208,7 +215,7 @@ def run(index, tier="quick", seed=0) -> Result:
         else:
             raise AnalysisError(f"EX-1: the vertex-count guard of {k} is not recognised")
         for s in sc.sites.values():
-            if s.func == f"{cname}.{member}" and s.form in ("isclose", "allclose"):
+            if (s.func == f"{cname}.{member}" or s.key.startswith(f"{cname}.{member}:")) and s.form in ("isclose", "allclose"):
                 if s.verdict == "in-band":
                     res.bad("EX-2", s.key, f"{s.file}:{s.line}", f"{k}: existence decided by `{s.text}` on a residual of length degree {s.k} "
                             f"with the absolute tolerance {s.c}: at small scale a ball is returned that violates the definition")
@@ -242,6 +249,51 @@ def run(index, tier="quick", seed=0) -> Result:
             else:
                 res.ok("TR-2", k_, nontrivial=rt is not None)
     return res
+
+
+def _guard_threshold(fn_node, cmp_node):
+    """largest count n for which the residual test is NOT applied: fold the test of the `if` that raises, with the count
+    comparison evaluated at n and the closeness test of the residual set to False (residual non-zero); None if the guard
+    is not a boolean combination of exactly these two ingredients."""
+    from ..astutil import single_assignments
+    env = single_assignments(fn_node)
+
+    class Unknown(Exception):
+        pass
+
+    def fold(t, n, close, depth=0):
+        if depth > 6:
+            raise Unknown()
+        if t is cmp_node:
+            c = ast.literal_eval(t.comparators[0])
+            op = t.ops[0]
+            return {ast.Gt: n > c, ast.GtE: n >= c, ast.Lt: n < c, ast.LtE: n <= c}[type(op)]
+        if isinstance(t, ast.BoolOp):
+            vals = [fold(v, n, close, depth + 1) for v in t.values]
+            return all(vals) if isinstance(t.op, ast.And) else any(vals)
+        if isinstance(t, ast.UnaryOp) and isinstance(t.op, ast.Not):
+            return not fold(t.operand, n, close, depth + 1)
+        if isinstance(t, ast.Call) and ast.unparse(t.func).split(".")[-1] in ("isclose", "allclose"):
+            return close
+        if isinstance(t, ast.Name) and t.id in env:
+            return fold(env[t.id], n, close, depth + 1)
+        raise Unknown()
+
+    for node in ast.walk(fn_node):
+        if isinstance(node, ast.If) and any(isinstance(b, ast.Raise) for b in node.body):
+            try:
+                rows = [(n, fold(node.test, n, False), fold(node.test, n, True)) for n in range(0, 12)]
+            except Unknown:
+                continue
+            except Exception:
+                continue
+            if any(c for (_n, _r, c) in rows):
+                return None            # raises although the residual is zero: not an existence guard
+            raising = [n for (n, r, _c) in rows if r]
+            if not raising or raising != list(range(raising[0], 12)):
+                return None
+            return raising[0] - 1
+    return None
 
 
 def _undo(res, index):
